@@ -29,6 +29,12 @@ KeyOf(cmp, v) == v \div cmp.mod
 Lt(cmp, a, b) == IF cmp.desc THEN KeyOf(cmp, b) < KeyOf(cmp, a) ELSE KeyOf(cmp, a) < KeyOf(cmp, b)
 Equiv(cmp, a, b) == KeyOf(cmp, a) = KeyOf(cmp, b)
 
+\* coarse heterogeneous key c against element e
+KClass(cmp, e) == KeyOf(cmp, e) \div 2
+KMatch(cmp, e, c) == KClass(cmp, e) = c
+KLt(cmp, e, c) == IF cmp.desc THEN c < KClass(cmp, e) ELSE KClass(cmp, e) < c        \* element orders before the key
+KGt(cmp, e, c) == IF cmp.desc THEN KClass(cmp, e) < c ELSE c < KClass(cmp, e)        \* key orders before the element
+
 SDead == [ex |-> FALSE, elems |-> <<>>, cmp |-> CmpOf(0), pri |-> FALSE, large |-> FALSE]
 SFresh(cm) == [ex |-> TRUE, elems |-> <<>>, cmp |-> CmpOf(cm), pri |-> TRUE, large |-> FALSE]
 NoNode == [has |-> FALSE, v |-> 0, t |-> 0]      \* t: type of the set the node was extracted from
@@ -113,6 +119,12 @@ SStep(st, lb) ==
     [] lb.op \in {"count", "countK"}     -> SR(st, SValR(IF Has(x, lb.v) THEN 1 ELSE 0))
     [] lb.op \in {"lowerBound", "lowerBoundK"} -> SR(st, ItR(At(x, LbIdx(x, lb.v))))
     [] lb.op \in {"upperBound", "upperBoundK"} -> SR(st, ItR(At(x, UbIdx(x, lb.v))))
+    \* heterogeneous key of a COARSER granularity than the comparator (a transparent comparator may order keys that are
+    \* equivalent to several elements): class c matches every element e with KeyOf(e) \div 2 = c
+    [] lb.op = "lowerBoundC" -> SR(st, ItR(At(x, Cardinality({i \in 1..n : KLt(x.cmp, x.elems[i], lb.v)}) + 1)))
+    [] lb.op = "upperBoundC" -> SR(st, ItR(At(x, Cardinality({i \in 1..n : ~KGt(x.cmp, x.elems[i], lb.v)}) + 1)))
+    [] lb.op = "countC"      -> SR(st, SValR(Cardinality({i \in 1..n : KMatch(x.cmp, x.elems[i], lb.v)})))
+    [] lb.op = "containsC"   -> SR(st, SBoolR(\E i \in 1..n : KMatch(x.cmp, x.elems[i], lb.v)))
     [] lb.op = "equalRange" -> SR(st, RunR(IF Has(x, lb.v) THEN <<RepOf(x, lb.v)>> ELSE <<>>))
     [] lb.op = "iterate"  -> SR(st, SValR(n))
     [] lb.op = "relocate" -> SR(st, SNoRet)
@@ -212,10 +224,11 @@ HintOK(cmp, E, h, v) ==
 -----------------------------------------------------------------------------
 (* Legal labels per operation (model checking / random driving) *)
 SLookups == {"find", "contains", "count", "lowerBound", "upperBound", "equalRange"}
-SLookupsK == {"findK", "containsK", "countK", "lowerBoundK", "upperBoundK"}
+SLookupsK == {"findK", "containsK", "countK", "lowerBoundK", "upperBoundK", "lowerBoundC", "upperBoundC", "countC", "containsC"}
 SBin == {"swap", "assignCopy", "assignMove", "eq", "ne", "lt", "le", "gt", "ge", "mergeSame"}
 SCtors == {"ctorDefault", "ctorRange", "ctorIlist", "ctorFromVec", "ctorCopy", "ctorMove"}
-SFlatOnly == {"ctorFromVec", "assignVec", "stealVector", "lowerBound", "upperBound", "equalRange", "lowerBoundK", "upperBoundK"}
+SFlatOnly == {"ctorFromVec", "assignVec", "stealVector", "lowerBound", "upperBound", "equalRange", "lowerBoundK", "upperBoundK",
+              "lowerBoundC", "upperBoundC"}
 SAllOps == SLookups \cup SLookupsK \cup SBin \cup SCtors \cup
            {"destroy", "insert", "insertRv", "emplace", "insertHint", "insertHintRv", "emplaceHint", "insertRange", "insertIlist",
             "assignIlist", "assignVec", "eraseKey", "erasePos", "eraseRange", "eraseLoop", "clear", "iterate", "relocate",
@@ -227,7 +240,8 @@ SOpLabels(st, c, o, Keys, Cms, Its, RLens, MaxLen) ==
       Ranges == UNION {[1..m -> Keys] : m \in RLens}
       Same == {e \in SSlots : st.s[e].ex /\ STypeId[e] = STypeId[c]}
       notSmall == SFlav[c] # "small"
-      ok == o \notin SFlatOnly \/ SFlav[c] = "flat" \/ (SFlav[c] = "std" /\ o \in {"lowerBound", "upperBound", "equalRange"})
+      ok == o \notin SFlatOnly \/ SFlav[c] = "flat" \/
+            (SFlav[c] = "std" /\ o \in {"lowerBound", "upperBound", "equalRange", "lowerBoundK", "upperBoundK", "lowerBoundC", "upperBoundC"})
       Room(m) == m <= MaxLen
   IN
   IF ~ok THEN {}
@@ -243,6 +257,8 @@ SOpLabels(st, c, o, Keys, Cms, Its, RLens, MaxLen) ==
            {SLbl(o, c, 0, v, h, 0, 0, "", <<>>) : v \in {w \in Keys : Room(n + 1) \/ Has(x, w)}, h \in 0..n}
       [] o = "insertRange" -> {SLbl(o, c, 0, 0, 0, 0, 0, it, vs) : it \in Its, vs \in {r \in Ranges : Room(n + Len(r))}}
       [] o \in {"insertIlist", "assignIlist", "assignVec"} -> {SLbl(o, c, 0, 0, 0, 0, 0, "", vs) : vs \in {r \in Ranges : Room(n + Len(r))}}
+      [] o \in {"lowerBoundC", "upperBoundC", "countC", "containsC"} ->
+           {SLbl(o, c, 0, v, 0, 0, 0, "", <<>>) : v \in {(k \div m) \div 2 : k \in Keys, m \in {1, 2}}}
       [] o \in {"eraseKey", "extractKey"} \cup SLookups \cup SLookupsK -> {SLbl(o, c, 0, v, 0, 0, 0, "", <<>>) : v \in Keys}
       [] o \in {"erasePos", "extractPos"} -> {SLbl(o, c, 0, 0, h, 0, 0, "", <<>>) : h \in 0..n - 1}
       [] o = "eraseRange" -> {SLbl(o, c, 0, 0, pq[1], pq[2], 0, "", <<>>) : pq \in {w \in (0..n) \X (0..n) : w[1] <= w[2]}}
